@@ -31,7 +31,8 @@ FAULTS = ["none", "close", "reset", "dpr", "reconnect", "second_conn", "second_c
 # application hands the answer to Node.send_message with the connection itself (documented for that purpose);
 # "raise" - the handler fails after putting the request aside and the node answers 5012 for it.  In the last two
 # the request has been answered, so every later submission through send_answer is a second answer
-FIRST_VIA = ["send_answer", "direct", "raise"]
+# "mixed": every other request makes the handler fail (the node answers it), the rest are kept for later answers
+FIRST_VIA = ["send_answer", "direct", "raise", "mixed"]
 
 
 def shards(tier, seed):
@@ -49,7 +50,7 @@ def shards(tier, seed):
 
 class Case:
     def __init__(self, run, npeers, placement, order, fault, fault_pos, fault_target, resubmit=False,
-                 concurrent=False, first_via="send_answer"):
+                 concurrent=False, first_via="send_answer", same_e2e=False):
         """placement: list of (peer index, hbh) per request; order: permutation of request indices."""
         from vf.simnet.world import World, REALM
         from vf.simnet import msgs as M
@@ -57,10 +58,10 @@ class Case:
         self.run = run
         self.spec = dict(npeers=npeers, placement=[list(x) for x in placement], order=list(order), fault=fault,
                          fault_pos=fault_pos, fault_target=fault_target, resubmit=resubmit, concurrent=concurrent,
-                         first_via=first_via)
+                         first_via=first_via, same_e2e=same_e2e)
         peers = [{"name": f"peer{i + 1}.verif.example"} for i in range(npeers)]
         self.w = World(dict(peers=peers, apps=[{"tag": "a4", "id": 4,
-                                                 "behaviour": "keep_raise" if first_via == "raise" else "defer",
+                                                 "behaviour": self.behaviour_for(first_via),
                                                  "peers": [p["name"] for p in peers]}],
                             node={"idle_timeout": 500 if fault in ("dpr_then_late_dwa", "dpr_when_idle_timer_due") else 10 ** 6,
                                   "dwa_timeout": 10 ** 6}))
@@ -68,9 +69,23 @@ class Case:
         self.app = self.w.apps["a4"]
         self.socks = []      # per peer: list of ScriptedPeer (connection generations)
         self.judged = 0
+        self.unanswered = set()     # request indices that have had no answer yet (ground truth of the harness)
+        self.tainted = False        # an ambiguous submission has happened: later ones are not judged
 
     def witness(self, key, detail):
         self.run.witness(key, {**detail, **self.spec}, self.spec)
+
+    def behaviour_for(self, first_via):
+        if first_via == "raise":
+            return "keep_raise"
+        if first_via == "mixed":
+            self.arrivals = 0
+
+            def beh(m):
+                self.arrivals += 1
+                return "keep_raise" if self.arrivals % 2 == 0 else "defer"
+            return beh
+        return "defer"
 
     def connect(self, i, gen=0):
         h, M = self.h, self.M
@@ -184,7 +199,9 @@ class Case:
             self.req_ids = []
             for ri, (pi, hbh) in enumerate(sp["placement"]):
                 p = self.socks[pi][-1]
-                e2e = 0x9000 + ri
+                # same_e2e: requests bearing the same hop-by-hop id on different connections also bear the same end-to-end
+                # id (both are unique per connection only)
+                e2e = 0x9000 + (hbh if sp["same_e2e"] else ri)
                 p.send(M.ccr(f"peer{pi + 1}.verif.example", self.REALM, self.REALM, app=4, hbh=hbh, e2e=e2e,
                              session=f"s;{ri}"))
                 h.settle()
@@ -195,14 +212,17 @@ class Case:
                 return
             msgs = list(self.app.deferred)
             # index requests by e2e (delivery order == arrival order, but be explicit)
-            by_e2e = {m.header.end_to_end_identifier: m for m in msgs}
+            by_e2e = {ri: m for ri, m in enumerate(msgs)}      # keyed by request index (arrival order = delivery order)
+            self.req_msgs = by_e2e
             for q in self.all_peers():
                 q.drain()           # answers the node has sent already (handler failures) are not submissions
             seen = {id(q): len(q.frames) for q in self.all_peers()}
             submitted = set()
-            if sp["first_via"] == "raise":
-                # the node has answered each of them already (handler failure)
-                submitted = set(range(len(sp["placement"])))
+            self.unanswered = set(range(len(sp["placement"])))
+            if sp["first_via"] in ("raise", "mixed"):
+                # the node has answered them already (handler failure): all of them / every second arrival
+                submitted = set(ri for ri in range(len(sp["placement"])) if sp["first_via"] == "raise" or ri % 2 == 1)
+                self.unanswered -= submitted
                 self.run.cov["first_answer_by_node"] = self.run.cov.get("first_answer_by_node", 0) + len(submitted)
             steps = list(sp["order"])
             if sp["concurrent"]:
@@ -217,6 +237,8 @@ class Case:
                 if pos == len(steps):
                     break
                 ri = steps[pos]
+                if self.tainted or self.ambiguous(ri, seen):
+                    continue
                 if sp["first_via"] == "direct" and ri not in submitted and self.sock_ready(self.req_sock[ri]):
                     self.direct_first(ri, by_e2e, seen)
                     submitted.add(ri)
@@ -234,14 +256,40 @@ class Case:
         finally:
             w.teardown()
 
+    def ambiguous(self, ri, seen):
+        """The identifiers of request ri are pending on ANOTHER connection as well.  The answer object carries
+        nothing but the two identifiers, so the node cannot tell the connections apart (known finding
+        `answer.identifiers_pending_on_two_connections`): the submission is observed, judged under that one key, and
+        nothing after it is judged in this case (the harness no longer knows which connection's record was used)."""
+        S = self.req_sock[ri]
+        others = [rj for rj in self.unanswered if rj != ri and self.req_ids[rj] == self.req_ids[ri]
+                  and self.req_sock[rj] is not S]
+        if not others:
+            return False
+        exc = self.app.submit(self.req_msgs[ri])
+        self.h.settle()
+        self.run.cov["ambiguous_submissions"] = self.run.cov.get("ambiguous_submissions", 0) + 1
+        wrong = False
+        for q in self.all_peers():
+            q.drain()
+            new = q.frames[seen.get(id(q), 0):]
+            seen[id(q)] = len(q.frames)
+            if q is not S and any(not f.is_request and f.h.code == 272 for f in new):
+                wrong = True
+        if wrong:
+            self.witness("answer.identifiers_pending_on_two_connections", {"request": ri, "ids": self.req_ids[ri]})
+        self.tainted = True
+        return True
+
     def direct_first(self, ri, by_e2e, seen):
         """First answer handed to the node together with the connection (Node.send_message)."""
         h = self.h
         hbh, e2e = self.req_ids[ri]
         S = self.req_sock[ri]
         conn = h.conn_of(S)
-        ans = self.app.build_answer(by_e2e[e2e], 2001)
+        ans = self.app.build_answer(by_e2e[ri], 2001)
         self.w.node.send_message(conn, ans)
+        self.unanswered.discard(ri)
         h.settle()
         self.run.cov["first_answer_direct"] = self.run.cov.get("first_answer_direct", 0) + 1
         for q in self.all_peers():
@@ -254,12 +302,14 @@ class Case:
     def submit_and_judge(self, ri, by_e2e, seen, first):
         h = self.h
         hbh, e2e = self.req_ids[ri]
-        m = by_e2e[e2e]
+        m = by_e2e[ri]
         S = self.req_sock[ri]
         ready = self.sock_ready(S)
         exc = self.app.submit(m)
         h.settle()
         self.judged += 1
+        if exc is None:
+            self.unanswered.discard(ri)
         where = []
         for q in self.all_peers():
             q.drain()
@@ -312,7 +362,7 @@ class Case:
         import time
         h, node = self.h, self.w.node
         hbh, e2e = self.req_ids[ri]
-        m = by_e2e[e2e]
+        m = by_e2e[ri]
         S = self.req_sock[ri]
         ready = self.sock_ready(S)
         orig = node.send_message
@@ -345,6 +395,8 @@ class Case:
             seen[id(q)] = len(q.frames)
             where += [(q, f) for f in new if not f.is_request and f.h.code == 272]
         accepted = [k for k in (0, 1) if res.get(k) is None]
+        if accepted:
+            self.unanswered.discard(ri)
         ctx = {"request": ri, "ids": (hbh, e2e), "accepted": len(accepted), "sent_on": [q.pid for q, _ in where],
                "expected_sock": S.pid, "sock_ready": ready, "overlapping": True}
         if any(q is not S for q, _ in where):
@@ -367,7 +419,7 @@ class Case:
             h.cv.notify_all()
 
         def sub(ri):
-            results[ri] = self.app.submit(by_e2e[self.req_ids[ri][1]])
+            results[ri] = self.app.submit(by_e2e[ri])
 
         ths = [threading.Thread(target=sub, args=(ri,)) for ri in self.spec["order"]]
         for t in ths:
@@ -513,11 +565,11 @@ def run_shard(spec):
             nreq = len(pl)
             order = list(range(nreq))
             rng.shuffle(order)
-            via = rng.choice(["send_answer"] * 3 + ["direct", "raise"])
+            via = rng.choice(["send_answer"] * 3 + ["direct", "raise", "mixed", "mixed"])
             run.one(npeers, pl, order, rng.choice(FAULTS + ["foreign_same_ids"]), rng.randrange(nreq + 1),
                     rng.randrange(npeers),
                     resubmit=rng.choice([False, False, False, False, True, True, "overlap"]) if via == "send_answer" else True,
-                    first_via=via)
+                    first_via=via, same_e2e=rng.random() < 0.4)
     else:
         for _ in range(spec["n"]):
             npeers = rng.choice([2, 3])
@@ -533,7 +585,7 @@ def replay(obj):
     run = Run()
     run.one(obj["npeers"], [tuple(x) for x in obj["placement"]], obj["order"], obj["fault"], obj["fault_pos"],
             obj["fault_target"], resubmit=obj.get("resubmit", False), concurrent=obj.get("concurrent", False),
-            first_via=obj.get("first_via", "send_answer"))
+            first_via=obj.get("first_via", "send_answer"), same_e2e=obj.get("same_e2e", False))
     return run.result()
 
 
